@@ -1,2 +1,205 @@
-(** C14 — statements are added once the proofs exist (work in progress). *)
-From Verif Require Import Lib.Base Version.Parse Version.ParseSpec.
+(** C14 — Version objects accept exactly valid version strings and decompose losslessly.
+    Only statements; every proof is [exact <lemma>] (lemmas in Version/ParseProofs.v).
+
+    Model: Version/Parse.v — [version_new] (= Version(s)), [version_str] (= str(v)),
+           [setattr] (= obj.name = value), [run_assigns]; character classes, end anchor
+           and magic_attrs from the generated Gen/VersionConsts.v.
+    Spec:  Version/ParseSpec.v — the Policy 5.6.12 grammar, declaratively
+           ([valid_version]) and as a decision procedure ([valid_spec],
+           [spec_decompose] = cut at the first colon and the last hyphen), [recompose].
+    The theorems are unconditional in the character classes: they are proved for the
+    classes that the source has NOW (a widened class, [\d] or [$] in the pattern
+    regenerates the table and these proofs stop compiling). *)
+From Coq Require Import String.
+From Verif Require Import Lib.Base Lib.Dec Lib.PyStr Version.Parse Version.ParseSpec
+  Version.ParseCheck Version.ParseProofs.
+
+(** * 1. accepts_iff_valid — all strings over all code points *)
+
+Theorem C14_accepts_iff_valid :
+  forall s, is_ok (version_new (VStr s)) = valid_spec s.
+Proof. exact accepts_iff_valid. Qed.
+
+(** the only exception is ValueError *)
+Theorem C14_rejects_with_ValueError :
+  forall s e, version_new (VStr s) = Err e -> e = ValueError.
+Proof. exact rejects_with_ValueError. Qed.
+
+(** [valid_spec] (first colon / last hyphen) decides the declarative grammar
+    [epoch:]upstream[-revision] of ParseSpec.valid_version *)
+Theorem C14_valid_spec_iff_grammar :
+  forall s, valid_spec s = true <-> valid_version s.
+Proof. exact valid_spec_iff_grammar. Qed.
+
+(** * 2. decomposition_unique / recompose_id / str_id *)
+
+(** construction stores exactly the grammar's decomposition (and nothing else succeeds) *)
+Theorem C14_construction_is_decomposition :
+  forall s, version_new (VStr s) =
+            match spec_decompose s with
+            | Some (e, u, r) => Ok (mkV s e (Some u) r)
+            | None => Err ValueError
+            end.
+Proof. exact version_new_spec. Qed.
+
+(** str(), full_version, and the recomposition of the three components give back the string *)
+Theorem C14_recompose_id :
+  forall s st, version_new (VStr s) = Ok st ->
+  exists e u r,
+    st = mkV s e (Some u) r
+    /\ spec_split s = (e, u, r)
+    /\ components_ok e u r = true
+    /\ recompose e u r = s
+    /\ version_str st = s.
+Proof. exact new_decomposes. Qed.
+
+Theorem C14_str_id :
+  forall s st, version_new (VStr s) = Ok st -> version_str st = s.
+Proof. exact str_id. Qed.
+
+(** epoch = before the first colon, revision = after the last hyphen; a colon only
+    together with an epoch, a hyphen only together with a revision *)
+Theorem C14_cut_points :
+  forall s st, version_new (VStr s) = Ok st ->
+  match st_epoch st with
+  | Some e => exists rest, s = e ++ COLON :: rest /\ mem_char COLON e = false
+  | None => mem_char COLON s = false
+  end
+  /\ match st_rev st with
+     | Some r => exists p, s = p ++ HYPHEN :: r /\ mem_char HYPHEN r = false
+     | None => mem_char HYPHEN s = false
+     end.
+Proof. exact new_cut_points. Qed.
+
+(** a valid string has ONE decomposition into well-formed components ... *)
+Theorem C14_decomposition_unique :
+  forall e u r e' u' r',
+    components_ok e u r = true -> components_ok e' u' r' = true ->
+    recompose e u r = recompose e' u' r' -> (e, u, r) = (e', u', r').
+Proof. exact decomposition_unique. Qed.
+
+(** ... and the object built from the recomposition holds exactly those components *)
+Theorem C14_new_from_components :
+  forall e u r, components_ok e u r = true ->
+    version_new (VStr (recompose e u r)) = Ok (mkV (recompose e u r) e (Some u) r).
+Proof. exact new_from_components. Qed.
+
+(** * 3. setattr_ok_or_rollback *)
+
+(** the invariant [inv]: components = decomposition of the full string; equivalently,
+    re-reading the full string reproduces the state *)
+Theorem C14_inv_iff_reparse :
+  forall st, inv st = true <-> set_full (st_full st) = Ok st.
+Proof. exact inv_iff_reparse. Qed.
+
+Theorem C14_new_establishes_inv :
+  forall s st, version_new (VStr s) = Ok st -> inv st = true.
+Proof. exact new_establishes_inv. Qed.
+
+(** From any state satisfying [inv], assigning any of the attributes any value (None, a
+    str, an int): [target] is the recomposed string that the assignment asks for
+    ([Some None]: there is none — upstream_version = None).  Either it is a valid
+    version and the object now is exactly that version (no exception, full string =
+    the recomposition, state = what Version(recomposition) builds), or ValueError is
+    raised and the state is EQUAL to the one before.  [inv] holds afterwards. *)
+Theorem C14_setattr_ok_or_rollback :
+  forall st name v,
+  inv st = true ->
+  inv (fst (setattr st name v)) = true
+  /\ match target st name v with
+     | None => setattr st name v = (st, None)
+     | Some None => setattr st name v = (st, Some ValueError)
+     | Some (Some s) =>
+         if valid_spec s
+         then snd (setattr st name v) = None
+              /\ st_full (fst (setattr st name v)) = s
+              /\ version_new (VStr s) = Ok (fst (setattr st name v))
+         else setattr st name v = (st, Some ValueError)
+     end.
+Proof. exact setattr_ok_or_rollback. Qed.
+
+(** as one equation: the model's [setattr] IS the specified transition *)
+Theorem C14_setattr_is_spec :
+  forall st name v, inv st = true -> setattr st name v = setattr_spec st name v.
+Proof. exact setattr_eq_spec. Qed.
+
+(** lifted to ALL sequences of assignments (induction over the op list): every step
+    of the run is the specified step from the state before it, and [inv] holds
+    after every step *)
+Theorem C14_assigns_ok_or_rollback :
+  forall ops st, inv st = true -> trace_ok st ops (run_assigns st ops).
+Proof. exact assigns_ok_or_rollback. Qed.
+
+Theorem C14_assigns_preserve_inv :
+  forall ops st, inv st = true ->
+    forallb (fun r => inv (fst r)) (run_assigns st ops) = true.
+Proof. exact assigns_preserve_inv. Qed.
+
+(** * 4. the bridge to the run-time check *)
+
+(** For EVERY case (any string, any assignment sequence): if the implementation's
+    observation equals the model's output ([agree], evaluated on each generated case),
+    then the property as [holds] evaluates it on that observation is true. *)
+Theorem C14_agree_implies_holds :
+  forall c, agree c = true -> holds c = true.
+Proof. exact agree_implies_holds. Qed.
+
+(** * Non-vacuity *)
+Local Open Scope string_scope.
+
+(** a string with every part, colons and hyphens inside upstream: constructed,
+    decomposed at the first colon / last hyphen, invariant established *)
+Example C14_nonvacuous_new :
+  let s := dec "12:1:2-3-4~a+b.c" in
+  valid_spec s = true
+  /\ version_new (VStr s) = Ok (mkV s (Some (dec "12")) (Some (dec "1:2-3")) (Some (dec "4~a+b.c")))
+  /\ (exists st, version_new (VStr s) = Ok st /\ inv st = true)
+  /\ valid_spec (dec "1.0-") = false /\ valid_spec (dec "1.0" ++ [10%N])%list = false
+  /\ valid_spec [1635; 58; 49]%N = false /\ valid_spec (dec "1:") = false.
+Proof. vm_compute. repeat split. eexists. split; reflexivity. Qed.
+
+(** a sequence with successful and refused assignments (None, int, bad strings):
+    the hypotheses of theorems 3 are met and both outcomes occur *)
+Example C14_nonvacuous_assign :
+  let st := mkV (dec "1:2.0-3") (Some (dec "1")) (Some (dec "2.0")) (Some (dec "3")) in
+  let ops := [(dec "upstream_version", VNone); (dec "epoch", VNone); (dec "debian_revision", VStr []);
+              (dec "upstream_version", VStr (dec "4-5")); (dec "epoch", VInt 7);
+              (dec "debian_version", VStr (dec "a b")); (dec "foo", VInt 1);
+              (dec "full_version", VStr (dec "1:x:y"))] in
+  inv st = true
+  /\ map (fun r => (st_full (fst r), snd r)) (run_assigns st ops)
+     = [(dec "1:2.0-3", Some ValueError); (dec "2.0-3", None); (dec "2.0", None);
+        (dec "4-5", None); (dec "7:4-5", None); (dec "7:4-5", Some ValueError);
+        (dec "7:4-5", None); (dec "1:x:y", None)]
+  /\ map (fun r => (st_up (fst r), st_rev (fst r))) (run_assigns st ops)
+     = [(Some (dec "2.0"), Some (dec "3")); (Some (dec "2.0"), Some (dec "3")); (Some (dec "2.0"), None);
+        (Some (dec "4"), Some (dec "5")); (Some (dec "4"), Some (dec "5")); (Some (dec "4"), Some (dec "5"));
+        (Some (dec "4"), Some (dec "5")); (Some (dec "x:y"), None)].
+Proof. vm_compute. repeat split. Qed.
+
+(** a case of the check with agree = true and a non-trivial sequence *)
+Example C14_nonvacuous_case :
+  let snap s e u r := mkS s (Some s) e (Some u) r r in
+  let c := CSeq "1.0-1" [("epoch", AStr "2"); ("upstream_version", ANone)]
+             (Ok (snap "1.0-1" None "1.0" (Some "1"),
+                  [(None, snap "2:1.0-1" (Some "2") "1.0" (Some "1"));
+                   (Some ValueError, snap "2:1.0-1" (Some "2") "1.0" (Some "1"))])) in
+  agree c = true /\ holds c = true.
+Proof. vm_compute. split; reflexivity. Qed.
+
+Print Assumptions C14_accepts_iff_valid.
+Print Assumptions C14_rejects_with_ValueError.
+Print Assumptions C14_valid_spec_iff_grammar.
+Print Assumptions C14_construction_is_decomposition.
+Print Assumptions C14_recompose_id.
+Print Assumptions C14_str_id.
+Print Assumptions C14_cut_points.
+Print Assumptions C14_decomposition_unique.
+Print Assumptions C14_new_from_components.
+Print Assumptions C14_inv_iff_reparse.
+Print Assumptions C14_new_establishes_inv.
+Print Assumptions C14_setattr_ok_or_rollback.
+Print Assumptions C14_setattr_is_spec.
+Print Assumptions C14_assigns_ok_or_rollback.
+Print Assumptions C14_assigns_preserve_inv.
+Print Assumptions C14_agree_implies_holds.
